@@ -3,7 +3,7 @@
    decides equality of states.  Then the orbit map of C08_Sim.v is N-periodic and injective on a period, and
    C08_Cycle.cycle_stationary applies: the uniform distribution on the in-slice states of the closed orbit is invariant.
    Instance: the concrete phase-space model of the correspondence (states over Qc, leapfrog of Model/C08_NUTS.v). *)
-From CV Require Import Base.Tac Base.Cmp Base.Ext Base.LinAlg Base.QcLin Model.C08_NUTS Proofs.C08_Prog Proofs.C08_Tree Proofs.C08_Top
+From CV Require Import Base.Tac Base.Cmp Base.Ext Base.LinAlg Base.QcLin Model.C08_NUTS Model.C08_Kernel Proofs.C08_Prog Proofs.C08_Tree Proofs.C08_Top
                        Proofs.C08_Law Proofs.C08_Orbit Proofs.C08_Block Proofs.C08_Alive Proofs.C08_Sim Proofs.C08_Cycle Proofs.C08_LeapD.
 From Coq Require Import QArith Qcanon Lqa.
 Local Open Scope Z_scope.
@@ -104,9 +104,6 @@ Qed.
 End Closed.
 
 (* ---------------- the concrete model of the correspondence ---------------- *)
-Definition cs_eqb (s t : cstate) : bool :=
-  qcl_eqb (ps_x s) (ps_x t) && qcl_eqb (ps_r s) (ps_r t) && qcl_eqb (ps_g s) (ps_g t).
-
 Lemma qcl_eqb_spec x y : qcl_eqb x y = true <-> x = y.
 Proof. apply list_eqb_spec. apply qc_eqb_eq. Qed.
 
@@ -149,4 +146,19 @@ Proof.
   - unfold s0, c_init, ok_d. cbn [ps_x ps_r ps_g]. repeat split; try assumption. apply Ht, Hx.
   - apply cs_eqb_spec.
   - intros i. apply in_slice_nd_fin.
+Qed.
+
+(* what the closed-orbit cells check by computation are the hypotheses above *)
+Lemma check_cycle_sound t heps x z N : check_cycle t heps x z N = true ->
+  let s0 := c_init t (qvec x) (qvec z) in
+  (0 < N)%nat /\ length (qvec x) = length (qvec z) /\ Nat.iter N (c_leap t heps true) s0 = s0 /\
+  (forall n, (0 < n < N)%nat -> Nat.iter n (c_leap t heps true) s0 <> s0).
+Proof.
+  unfold check_cycle. cbv zeta. intros E.
+  apply andb_true_iff in E as [E E4]. apply andb_true_iff in E as [E E3]. apply andb_true_iff in E as [E1 E2].
+  apply Nat.ltb_lt in E1. apply Nat.eqb_eq in E2. apply cs_eqb_spec in E3.
+  split; [exact E1 | split; [unfold qvec; rewrite !map_length; exact E2 | split; [exact E3|]]].
+  intros n Hn Ec. rewrite forallb_forall in E4.
+  assert (Hin : In n (seq 1 (N - 1))) by (apply in_seq; lia).
+  specialize (E4 n Hin). apply cs_eqb_spec in Ec. rewrite Ec in E4. discriminate.
 Qed.
